@@ -163,7 +163,7 @@ def methods_of(built, case):
 def all_funcs(case):
     fs = list(case.get("handlers", []))
     for t in case["targets"]:
-        fs += t["funcs"]
+        fs += t.get("funcs", [])  # (an instance `same_as` another target has no functions of its own)
     return fs
 
 
@@ -560,6 +560,28 @@ def corpus():
                                                                      {"name": "fireS", "kind": "xset_if", "slot": 0, "a": 5, "t": 1, "b": 1},
                                                                      {"name": "fireB", "kind": "xset_if", "slot": 0, "a": 50, "t": 1, "b": 2}]}],
             {"kind": "slot_ne", "addr": C0, "slot": 1, "k": b}, 2)
+    # assertions inside a target: a candidate that is refuted by the full query (it contradicts a constraint that is
+    # not a constraint on the state: timestamp >= previous timestamp) must not suppress a genuine failure of the
+    # same function found later (deeper, or from a sibling state)
+    st_a = {"name": "a", "kind": "step", "slot": 0, "a": 0, "b": 1}
+    st_b = {"name": "b", "kind": "step", "slot": 0, "a": 1, "b": 2}
+    st_b2 = {"name": "b2", "kind": "step", "slot": 0, "a": 0, "b": 2}
+    chk = {"name": "check", "kind": "assert_stages", "slot": 0, "a": 1, "c": 2}
+    add("probe-after-refuted-candidate", [{"name": "C0", "funcs": [st_a, st_b, chk]}], {"kind": "true"}, 3)
+    add("probe-sibling-refuted-first", [{"name": "C0", "funcs": [st_a, st_b2, chk]}], {"kind": "true"}, 2)
+    add("probe-sibling-genuine-first", [{"name": "C0", "funcs": [st_b2, st_a, dict(chk, imp="ts_ge1")]}], {"kind": "true"}, 2)
+    add("probe-refuted-only", [{"name": "C0", "funcs": [st_a, {"name": "check", "kind": "assert_stages", "slot": 0, "a": 1}]}], {"kind": "true"}, 2)
+    # two INSTANCES of one contract (one artifact, two addresses) with different selector filters: the functions run
+    # on an account are resolved for its ADDRESS, not for its contract
+    nop = {"name": "nop", "kind": "step", "slot": 1, "a": 0, "b": 1}
+    hit = {"name": "hit", "kind": "step", "slot": 0, "a": 0, "b": 1}
+    twins = [{"name": "C0", "funcs": [nop, hit]}, {"name": "C0", "same_as": 0}]
+    sn, sh = L.sel_int("nop()"), L.sel_int("hit()")
+    add("instances-tsel-second-hit", twins, {"kind": "slot_ne", "addr": C1, "slot": 0, "k": 1}, 1, {"targetSelectors": [[C0, [sn]], [C1, [sh]]]})
+    add("instances-tsel-first-hit", twins, {"kind": "slot_ne", "addr": C0, "slot": 0, "k": 1}, 1, {"targetSelectors": [[C0, [sh]], [C1, [sn]]]})
+    add("instances-tsel-holds", twins, {"kind": "slot_ne", "addr": C1, "slot": 0, "k": 1}, 2, {"targetSelectors": [[C0, [sh, sn]], [C1, [sn]]]})
+    add("instances-esel-second", twins, {"kind": "slot_ne", "addr": C0, "slot": 0, "k": 1}, 1, {"excludeSelectors": [[C1, [sh]]]})
+    add("instances-esel-first", twins, {"kind": "slot_ne", "addr": C1, "slot": 0, "k": 1}, 1, {"excludeSelectors": [[C0, [sh]]]})
     # ... the same with the tying condition FIRST and the branch on msg.value after it: the branch condition is
     # related to the stored symbol only through an EARLIER condition
     for side, b in (("lo", 1), ("hi", 2)):
@@ -652,6 +674,58 @@ def gen_branch_case(r, idx, max_depth=3):
     if src == "caller_br" and r.random() < 0.4:
         filters["targetSenders"] = [0x1234, 0x99, 0x98]
     return {"name": f"gen-branch-{idx}", "targets": [{"name": "C0", "funcs": funcs}], "invariant": inv, "depth": depth, "filters": filters}
+
+
+def gen_instances_case(r, idx):
+    """grammar for per-address target resolution: one contract with 2-3 guarded-transition functions,
+    deployed 2-3 times; every instance gets its own random targetSelectors() / excludeSelectors() entry
+    (or none); optional contract filters by address; invariant on one instance; depth 1..2."""
+    nf = r.randint(2, 3)
+    funcs = []
+    for j in range(nf):
+        k = r.choice(["step", "step", "inc", "setv", "guard_arg"])
+        funcs.append({"name": f"f{j}", "kind": k, "slot": r.randint(0, 1), "a": r.randint(0, 1), "b": r.randint(1, 2), "k": r.choice([1, 2, 5])})
+    n = r.choice([2, 2, 3])
+    targets = [{"name": "C0", "funcs": funcs}] + [{"name": "C0", "same_as": 0} for _ in range(n - 1)]
+    addrs = [L.target_addr(i) for i in range(n)]
+    sels = [L.sel_int(L.func_sig(f)) for f in funcs]
+    filters = {}
+    mode = r.choice(["target", "target", "exclude", "mixed"])
+    for a in addrs:
+        if r.random() < 0.25:
+            continue
+        sub = r.sample(sels, r.randint(1, len(sels)))
+        key = "targetSelectors" if mode == "target" or (mode == "mixed" and r.random() < 0.5) else "excludeSelectors"
+        filters.setdefault(key, []).append([a, sub])
+    if r.random() < 0.2:
+        filters["excludeContracts"] = [r.choice(addrs)]
+    inv = {"kind": r.choice(["slot_ne", "slot_lt"]), "addr": r.choice(addrs), "slot": r.randint(0, 1), "k": r.randint(1, 2)}
+    return {"name": f"gen-instances-{idx}", "targets": targets, "invariant": inv, "depth": r.choice([1, 1, 2]), "filters": filters}
+
+
+def gen_probe_case(r, idx, max_depth=3):
+    """grammar for assertions inside targets: check() holds an assertion that cannot fail (it contradicts
+    the monotonicity of timestamps, which only the full query knows: the candidate is explored and then
+    refuted) at one stage and a genuine one at another stage; the stages are reached by guarded
+    transitions -- siblings from stage 0 (depth 2) or a chain (depth 3) --; optional bystander; the
+    order of the functions (hence of the exploration) is random."""
+    shape = r.choice(["sibling", "sibling", "chain"]) if max_depth >= 3 else "sibling"
+    s1, s2 = r.sample([1, 2, 3], 2)
+    if shape == "sibling":
+        funcs = [{"name": "a", "kind": "step", "slot": 0, "a": 0, "b": s1}, {"name": "b", "kind": "step", "slot": 0, "a": 0, "b": s2}]
+        depth = 2
+    else:
+        funcs = [{"name": "a", "kind": "step", "slot": 0, "a": 0, "b": s1}, {"name": "b", "kind": "step", "slot": 0, "a": s1, "b": s2}]
+        depth = 3
+    imp_stage, gen_stage = (s1, s2) if shape == "chain" or r.random() < 0.5 else (s2, s1)
+    chk = {"name": "check", "kind": "assert_stages", "slot": 0, "a": imp_stage, "imp": r.choice(["ts_nonzero", "ts_ge1"])}
+    if r.random() < 0.85:
+        chk["c"] = gen_stage
+    funcs.append(chk)
+    if r.random() < 0.3:
+        funcs.append({"name": "tick", "kind": "inc", "slot": 1})
+    r.shuffle(funcs)
+    return {"name": f"gen-probe-{idx}", "targets": [{"name": "C0", "funcs": funcs}], "invariant": {"kind": "true"}, "depth": depth, "filters": {}}
 
 
 def resolved_nonempty(case):
